@@ -4,7 +4,8 @@
 From Coq Require Import List NArith ZArith Bool.
 From Qryn Require Import model.Ingest model.PushHandler model.IngestSpec model.IngestSched proofs.IngestBase proofs.IngestAck
   proofs.IngestSpecProofs proofs.IngestHandler proofs.IngestDrain proofs.IngestLive proofs.IngestLiveAll proofs.IngestRows
-  proofs.IngestWait proofs.IngestStop model.IngestFair proofs.IngestFairProofs model.IngestRegions proofs.IngestRegionsProofs model.PushConfirm proofs.IngestConfirm.
+  proofs.IngestWait proofs.IngestStop model.IngestFair proofs.IngestFairProofs model.IngestRegions proofs.IngestRegionsProofs model.PushConfirm proofs.IngestConfirm
+  model.IngestConfirmSched proofs.IngestConfirmInv proofs.IngestConfirmLive.
 Import ListNotations.
 
 (* For every configuration (workers of any kind / round-robin group / maxQueueSize, retry count), every
@@ -299,3 +300,63 @@ Theorem success_answer_needs_confirmation : forall c h c' es reqs,
   cstep c (CBase (GAnswer h)) = Some (c', es) -> In (CE (EAnswer h reqs true)) es -> mem_nat h (confirmed c) = true.
 Proof. exact IngestConfirm.success_answer_needs_confirmation. Qed.
 Print Assumptions success_answer_needs_confirmation.
+
+(* ---- ConfirmSeries as a RUN invariant, and the liveness of the wrapped system (round 4) --------------------------------
+
+   In the state reached by ANY run of the wrapped system (every configuration, every interleaving, any requests): a push
+   that answered an error has not run its confirmation loop (and, the answer being final, never will), a push that
+   answered success has, and a push that has confirmed has received everything its parser sent and every one of its
+   sub-pushes has succeeded. *)
+Theorem confirmation_matches_the_answer : forall cfg n tr c ces, crun (cinit cfg n) tr = Some (c, ces) ->
+  forall h hd, nth_error (hs (base c)) h = Some hd ->
+    (h_answer hd = Some false -> mem_nat h (confirmed c) = false) /\
+    (h_answer hd = Some true -> mem_nat h (confirmed c) = true) /\
+    (mem_nat h (confirmed c) = true ->
+       h_items hd = [] /\ (forall sp, In sp (h_subs hd) -> sp_result sp = Some true) /\ h_answer hd <> Some false).
+Proof. exact IngestConfirmInv.confirmation_matches_the_answer. Qed.
+Print Assumptions confirmation_matches_the_answer.
+
+(* ... and on the event log of the whole run: no push has both a confirmation and an error answer, whichever came first. *)
+Theorem error_answer_never_confirmed : forall cfg n tr c ces, crun (cinit cfg n) tr = Some (c, ces) ->
+  forall h keys reqs, In (EConfirm h keys) ces -> ~ In (CE (EAnswer h reqs false)) ces.
+Proof. exact IngestConfirmInv.error_answer_never_confirmed. Qed.
+Print Assumptions error_answer_never_confirmed.
+
+(* The scheduler of the wrapped system: next_act_c follows next_act and, where that would let a push answer success, first
+   runs the push's confirmation loop.  In every state whose plain part satisfies the invariant of the liveness theorems
+   (PI) and whose series requests do not make ConfirmSeries panic (HQ confirm_safe: MFingerprint / MType not shorter than
+   MDate -- every table), for every policy of INSERT outcomes: the picked step is enabled and decreases the variant
+   mu_c = mu + (pushes that have neither answered nor confirmed); a plain step it picks brings no new work and follows the
+   policy; when nothing is picked everything is finished. *)
+Theorem wrapped_scheduler_never_stuck : forall sig db c, PI sig (base c) -> HQ confirm_safe (base c) ->
+  match next_act_c db c with
+  | Some a => (forall b, a = CBase b -> internal b = true /\ act_live sig b = true /\
+                                        (forall s ok, b = GSvc s (SDoReturn ok) -> ok = db (base c) s)) /\
+              exists c' es, cstep c a = Some (c', es) /\ mu_c c' < mu_c c
+  | None => all_done (base c) = true
+  end.
+Proof. exact sched_c_progress. Qed.
+Print Assumptions wrapped_scheduler_never_stuck.
+
+(* Hence, from every state the wrapped system reaches by a trace without Stop whose sub-requests are routed and make
+   neither ProcessRequest nor ConfirmSeries panic, for every policy of INSERT outcomes: a schedule of at most mu_c system
+   steps that follows the policy ends with every worker empty and every push answered; in the state reached a push that
+   answered success has confirmed its series and a push that answered an error has not; and in the event log of the whole
+   run no promise is completed twice and no push answers twice. *)
+Theorem every_push_is_answered_and_confirmed_accordingly : forall cfg n tr c ces (db : gstate -> nat -> bool),
+  crun (cinit cfg n) tr = Some (c, ces) ->
+  forallb (act_live (sig_of_cfg cfg)) (base_trace tr) = true -> forallb (act_q confirm_safe) (base_trace tr) = true ->
+  exists tr' c' ces', crun c tr' = Some (c', ces') /\ forallb cinternal tr' = true /\
+    follows db (base c) (base_trace tr') = true /\ length tr' <= mu_c c /\
+    all_done (base c') = true /\
+    (forall h hd, nth_error (hs (base c')) h = Some hd ->
+       (h_answer hd = Some true -> mem_nat h (confirmed c') = true) /\
+       (h_answer hd = Some false -> mem_nat h (confirmed c') = false)) /\
+    one_answer_b (base_events (ces ++ ces')) = true.
+Proof. exact wrapped_system_completes. Qed.
+Print Assumptions every_push_is_answered_and_confirmed_accordingly.
+
+(* tables are safe for ConfirmSeries (so act_wf traces meet the hypothesis above) *)
+Theorem tables_are_safe_to_confirm : forall k r, wf_reqb k r = true -> confirm_safe k r = true.
+Proof. exact wf_confirm_safe. Qed.
+Print Assumptions tables_are_safe_to_confirm.
